@@ -238,7 +238,7 @@ func (c *Ctx) c13ShardMaps() {
 					continue
 				}
 				s := info.Selections[sel]
-				if s == nil || s.Kind() != types.FieldVal || s.Obj().Name() != "data" {
+				if s == nil || s.Kind() != types.FieldVal || selFieldName(s) != "data" {
 					continue
 				}
 				if _, isMap := s.Obj().Type().Underlying().(*types.Map); !isMap {
@@ -271,7 +271,7 @@ func (c *Ctx) c13ShardMaps() {
 					return false
 				}
 				s := info.Selections[sel]
-				if s == nil || s.Kind() != types.FieldVal || s.Obj().Name() != "data" {
+				if s == nil || s.Kind() != types.FieldVal || selFieldName(s) != "data" {
 					return false
 				}
 				_, isMap := s.Obj().Type().Underlying().(*types.Map)
